@@ -72,6 +72,41 @@ async fn quiesce() {
     tokio::time::sleep(Duration::from_nanos(1)).await;
 }
 
+/// Reference model of what the node's pool has been given (the statement's safe-to conditions, in exact
+/// integers): a fallback vote is justified only if its condition held at this node when it was cast.
+struct Shadow {
+    m: crate::model::PoolModel,
+    s2n: BTreeSet<Bid>,
+    s2s: BTreeSet<u64>,
+    /// (sequence number at the end of the step, conditions that held at some point up to then)
+    marks: Vec<(u64, BTreeSet<Bid>, BTreeSet<u64>)>,
+}
+
+impl Shadow {
+    fn absorb(&mut self, e: crate::model::StepExpect) {
+        self.s2n.extend(e.s2n_allowed.iter().copied());
+        self.s2s.extend(e.s2s_allowed.iter().copied());
+    }
+    fn vote(&mut self, v: &MVote) {
+        let (_, e) = self.m.apply_vote(v);
+        self.absorb(e);
+    }
+    fn cert(&mut self, c: &crate::model::MCert) {
+        let (_, e) = self.m.apply_cert(c);
+        self.absorb(e);
+    }
+    fn block(&mut self, b: Bid, p: Bid) {
+        let e = self.m.apply_block(b, p);
+        self.absorb(e);
+    }
+    fn mark(&mut self) {
+        self.marks.push((seq(), self.s2n.clone(), self.s2s.clone()));
+    }
+    fn held_at(&self, q: u64) -> Option<&(u64, BTreeSet<Bid>, BTreeSet<u64>)> {
+        self.marks.iter().find(|m| m.0 > q)
+    }
+}
+
 struct Plan {
     ep: Epoch,
     stakes: Vec<u64>,
@@ -257,6 +292,7 @@ async fn one_run(ctx: &mut Ctx, rng: &mut SRng, directed: bool) {
     let (bs_tx, bs_rx) = mpsc::channel::<BlockstoreEvent>(1 << 14);
     let (repair_tx, mut repair_rx) = mpsc::channel(1 << 14);
     let mut pool = PoolImpl::new(ep.own(own), pool_tx, repair_tx);
+    let mut shadow = Shadow { m: crate::model::PoolModel::new(&ep.stakes, own), s2n: BTreeSet::new(), s2s: BTreeSet::new(), marks: Vec::new() };
     let a2a = Arc::new(RecA2A { log: log.clone(), out: out.clone(), start });
     let mut votor = Votor::new(alpenglow::ValidatorIndex::new(own as u64), ep.vsks[own].clone(), votor_pool_rx, bs_rx, a2a);
     let votor_task = tokio::spawn(async move { votor.voting_loop().await });
@@ -286,13 +322,15 @@ async fn one_run(ctx: &mut Ctx, rng: &mut SRng, directed: bool) {
                     let v = sign_vote(&ep, mv.signer, mv.kind, mv.slot, mv.hash.as_ref().map(to_bh).as_ref());
                     if let Ok(vv) = ValidatedVote::try_new(v, &ep.info) {
                         let _ = pool.add_vote(vv).await;
+                        shadow.vote(mv);
                     }
                     ctx.count("input:vote");
                 }
                 Input::Cert(k, s, h, a, b) => {
                     if let Some(c) = build_cert(&ep, *k, *s, h.as_ref(), a, b).decode() {
-                        if let Ok(vc) = ValidatedCert::try_new(c, &ep.info) {
+                        if let Ok(vc) = ValidatedCert::try_new(c.clone(), &ep.info) {
                             let _ = pool.add_cert(vc).await;
+                            shadow.cert(&mcert_of(&c));
                         }
                     }
                     ctx.count("input:cert");
@@ -301,8 +339,9 @@ async fn one_run(ctx: &mut Ctx, rng: &mut SRng, directed: bool) {
                     let voted = log.lock().unwrap().iter().any(|(_, _, r)| matches!(r, Rec::Broadcast(ConsensusMessage::Vote(v)) if { let m = mvote_of(v); m.kind == VK::Notar && m.slot == *sl && m.hash == Some(*h) }));
                     if voted {
                         if let Some(c) = build_cert(&ep, CK::Notar, *sl, Some(h), signers, &[]).decode() {
-                            if let Ok(vc) = ValidatedCert::try_new(c, &ep.info) {
+                            if let Ok(vc) = ValidatedCert::try_new(c.clone(), &ep.info) {
                                 let _ = pool.add_cert(vc).await;
+                                shadow.cert(&mcert_of(&c));
                             }
                         }
                         ctx.count("input:notar-cert-with-own-signature");
@@ -321,6 +360,7 @@ async fn one_run(ctx: &mut Ctx, rng: &mut SRng, directed: bool) {
                     let info = BlockInfo::verif_new(to_bh(&b.1), to_bid(p));
                     let _ = bs_tx.send(BlockstoreEvent::Block { slot: Slot::new(b.0), block_info: info }).await;
                     pool.add_block(to_bid(b), to_bid(p)).await;
+                    shadow.block(*b, *p);
                     ctx.count("input:block");
                 }
                 Input::Invalid(s) => {
@@ -347,18 +387,22 @@ async fn one_run(ctx: &mut Ctx, rng: &mut SRng, directed: bool) {
                 for m in msgs {
                     match m {
                         ConsensusMessage::Vote(v) => {
-                            if let Ok(vv) = ValidatedVote::try_new(v, &ep.info) {
+                            if let Ok(vv) = ValidatedVote::try_new(v.clone(), &ep.info) {
                                 let _ = pool.add_vote(vv).await;
+                                shadow.vote(&mvote_of(&v));
                             }
                         }
                         ConsensusMessage::Cert(c) => {
-                            if let Ok(vc) = ValidatedCert::try_new(c, &ep.info) {
+                            if let Ok(vc) = ValidatedCert::try_new(c.clone(), &ep.info) {
                                 let _ = pool.add_cert(vc).await;
+                                shadow.cert(&mcert_of(&c));
                             }
                         }
                     }
                 }
             }
+            quiesce().await;
+            shadow.mark();
             if matches!(inp, Input::Standstill) {
                 // what the pool asked Votor to re-broadcast
                 let l = log.lock().unwrap();
@@ -376,23 +420,28 @@ async fn one_run(ctx: &mut Ctx, rng: &mut SRng, directed: bool) {
         for m in msgs {
             match m {
                 ConsensusMessage::Vote(v) => {
-                    if let Ok(vv) = ValidatedVote::try_new(v, &ep.info) {
+                    if let Ok(vv) = ValidatedVote::try_new(v.clone(), &ep.info) {
                         let _ = pool.add_vote(vv).await;
+                        shadow.vote(&mvote_of(&v));
                     }
                 }
                 ConsensusMessage::Cert(c) => {
-                    if let Ok(vc) = ValidatedCert::try_new(c, &ep.info) {
+                    if let Ok(vc) = ValidatedCert::try_new(c.clone(), &ep.info) {
                         let _ = pool.add_cert(vc).await;
+                        shadow.cert(&mcert_of(&c));
                     }
                 }
             }
         }
         while repair_rx.try_recv().is_ok() {}
+        quiesce().await;
+        shadow.mark();
         if votor_task.is_finished() {
             break;
         }
     }
     quiesce().await;
+    shadow.mark();
     // ------------------------------------------------------------------ oracle
     let recs: Vec<(u64, Duration, Rec)> = log.lock().unwrap().clone();
     let cfgj = json!({"n": n, "stakes": stakes, "family": family, "own": own, "windows": windows, "jitter_ms": jitter_ms, "slot_ms": slot_ms, "plan": tag});
@@ -493,6 +542,12 @@ async fn one_run(ctx: &mut Ctx, rng: &mut SRng, directed: bool) {
                 if !before(*sq, &|r| matches!(r, Rec::ToVotorPool(PoolEvent::SafeToNotar(b)) if from_bid(b) == (slot, h))) {
                     ctx.violation("C05 notar-fallback without a preceding safe-to-notar", format!("slot {slot}"), wit(json!(null)));
                 }
+                if let Some((_, n, _)) = shadow.held_at(*sq) {
+                    ctx.count("fallback-votes-judged-against-the-condition");
+                    if !n.contains(&(slot, h)) {
+                        ctx.violation("C05 notar-fallback cast although the safe-to-notar condition never held at the node", format!("slot {slot} block {}", hex(&h[..4])), wit(json!(null)));
+                    }
+                }
             }
             VK::SkipFallback => {
                 if !earlier.iter().any(|e| matches!(e.kind, VK::Notar | VK::Skip)) {
@@ -500,6 +555,12 @@ async fn one_run(ctx: &mut Ctx, rng: &mut SRng, directed: bool) {
                 }
                 if !before(*sq, &|r| matches!(r, Rec::ToVotorPool(PoolEvent::SafeToSkip(s)) if s.inner() == slot)) {
                     ctx.violation("C05 skip-fallback without a preceding safe-to-skip", format!("slot {slot}"), wit(json!(null)));
+                }
+                if let Some((_, _, k)) = shadow.held_at(*sq) {
+                    ctx.count("fallback-votes-judged-against-the-condition");
+                    if !k.contains(&slot) {
+                        ctx.violation("C05 skip-fallback cast although the safe-to-skip condition never held at the node", format!("slot {slot}"), wit(json!(null)));
+                    }
                 }
             }
         }
